@@ -376,12 +376,14 @@ class Parser:
         it and to move the result into dest.
         """
         code_gen = code_gen or self._code_gen
-        if self._current_token.content == '{':
+        # A quoted string may consist of one of these characters.
+        is_mark = self._current_token.is_a(TokenTypes.MARK)
+        if is_mark and self._current_token.content == '{':
             return self.next_token() and self._rvalue_curly(dest, code_gen)
-        if self._current_token.content == '[':
+        if is_mark and self._current_token.content == '[':
             return self._rvalue_fn_call(dest, code_gen)
         move_inst = OpCode.MOVE
-        uminus = self._current_token.content == '-'
+        uminus = is_mark and self._current_token.content == '-'
         if uminus:
             self.next_token()
         value = self._current_constant()
@@ -402,7 +404,7 @@ class Parser:
                 return self.token_error('Unknown: "{}"')
         elif self._current_token.is_a(TokenTypes.REGISTER):
             value = self._current_reg()
-        elif self._current_token.content == 'not':
+        elif self._current_token.is_a(TokenTypes.NOT):
             return self._rvalue_not(dest, code_gen)
         else:
             return self.token_error('Cannot use {} as a value.')
